@@ -1081,6 +1081,7 @@ static int cfg_setopt_value(cfg_t *cfg, cfg_opt_t *opt, const char *value, cfg_v
 
 	case CFGT_PTR:
 		if (!opt->parsecb) {
+			cfg_error(cfg, _("no value parsing callback for option '%s'"), opt->name);
 			errno = EINVAL;
 			return CFG_FAIL;
 		}
